@@ -4,6 +4,7 @@ pub mod c05;
 pub mod c06;
 pub mod c07;
 pub mod c09;
+pub mod c10;
 
 use crate::core::Report;
 
@@ -15,6 +16,7 @@ pub fn dispatch(p: &str, rep: &mut Report) -> bool {
         "C06" => c06::run(rep),
         "C07" => c07::run(rep),
         "C09" => c09::run(rep),
+        "C10" => c10::run(rep),
         _ => return false,
     }
     true
